@@ -15,7 +15,7 @@ for p in $PROPS; do
 done
 for d in seeded/*/; do
   sid=$(basename "$d")
-  git -C "$R" apply "$d/patch.diff" || { echo "$sid: patch does not apply"; continue; }
+  git -C "$R" apply "$HERE/${d}patch.diff" || { echo "$sid: patch does not apply"; continue; }
   line="$sid:"
   for p in $PROPS; do
     ./check $p --tier quick > out_$p.txt 2>&1
